@@ -77,6 +77,33 @@ theorem clock_times_le_entry_count {U : List Entry} (hU : HashDet U) (hT : Clock
     (hs : ∀ e ∈ L.entries, e ∈ U) (hc : Closed L) : ∀ e ∈ L.entries, e.time ≤ L.entries.length :=
   time_le_length hU hT hs hc
 
+/-- **At rest with a complete log, in the property's own terms**: the store has seen any sequence of
+status events whose log lengths never exceeded the final length and whose clock arguments were
+Lamport times of entries that are now IN the log (announced heads that arrived, fetched entries,
+own writes) or zero; the log is complete (closed under `next`) and honestly clocked. Then progress =
+maximum = number of entries, and no entry's Lamport time exceeds it — the hypothesis "every clock
+argument ≤ n" of `at_rest_equals_len` is discharged from the log. -/
+theorem at_rest_with_a_complete_log {U : List Entry} (hU : HashDet U) (hT : ClockTight U) {L : Log}
+    (hs : ∀ e ∈ L.entries, e ∈ U) (hc : Closed L) (evs : List StEv) (arg : Int)
+    (hlen : ∀ e ∈ evs, e.len ≤ (L.entries.length : Int))
+    (hargs : ∀ e ∈ evs, e.arg ≤ 0 ∨ ∃ x ∈ L.entries, e.arg = (x.time : Int))
+    (harg : arg ≤ 0 ∨ ∃ x ∈ L.entries, arg = (x.time : Int)) :
+    let st := ({} : Status).run (evs ++ [.status L.entries.length arg])
+    st.progress = L.entries.length ∧ st.max = L.entries.length ∧
+      ∀ x ∈ L.entries, (x.time : Int) ≤ st.max := by
+  have hbound : ∀ a : Int, (a ≤ 0 ∨ ∃ x ∈ L.entries, a = (x.time : Int)) → a ≤ (L.entries.length : Int) := by
+    intro a ha
+    rcases ha with h0 | ⟨x, hx, rfl⟩
+    · omega
+    · have := time_le_length hU hT hs hc x hx; omega
+  have h := rest_eq_len evs L.entries.length arg (by omega)
+    (fun e he => ⟨hlen e he, hbound _ (hargs e he)⟩) (hbound _ harg)
+  refine ⟨h.1, h.2, ?_⟩
+  intro x hx
+  rw [h.2]
+  have := time_le_length hU hT hs hc x hx
+  omega
+
 /-- A fresh store that loaded a snapshot (`LoadFromSnapshot` after the `fix:` commit, finding F23)
 is at rest with progress = maximum = number of entries, and no entry's Lamport time is above it —
 whatever else the snapshot file held (a snapshot written while the log grew holds records its heads
